@@ -218,6 +218,7 @@ type rcfg struct {
 	Change  bool   // the refresh finds a changed deployment: service s2 now also serves the fields of Gain
 	Twice   bool   // two concurrent requests
 	Introsp bool   // the second request is an introspection query (served by the client that refresh replaces)
+	Down    bool   // service s2 is unreachable while the refresh fetches the schemas (a transient fault); a further request follows once it is back
 	name    string // cached
 }
 
@@ -248,13 +249,17 @@ func gained(a fedfix.Assignment) fedfix.Assignment {
 }
 
 func (c rcfg) String() string {
-	return fmt.Sprintf("asg=%d query=%d refreshes=%d change=%t twice=%t introspection=%t", c.Asg, c.Query, c.N, c.Change, c.Twice, c.Introsp)
+	s := fmt.Sprintf("asg=%d query=%d refreshes=%d change=%t twice=%t introspection=%t", c.Asg, c.Query, c.N, c.Change, c.Twice, c.Introsp)
+	if c.Down {
+		s += " down=true"
+	}
+	return s
 }
 
 func parseRcfg(s string) rcfg {
 	var c rcfg
-	s = strings.NewReplacer("asg=", "", "query=", "", "refreshes=", "", "change=", "", "twice=", "", "introspection=", "").Replace(s)
-	fmt.Sscan(s, &c.Asg, &c.Query, &c.N, &c.Change, &c.Twice, &c.Introsp)
+	s = strings.NewReplacer("asg=", "", "query=", "", "refreshes=", "", "change=", "", "twice=", "", "introspection=", "", "down=", "").Replace(s)
+	fmt.Sscan(s, &c.Asg, &c.Query, &c.N, &c.Change, &c.Twice, &c.Introsp, &c.Down)
 	return c
 }
 
@@ -271,18 +276,17 @@ type cachedSyncer struct {
 }
 
 type fetched struct {
-	p *federation.Planner
-	s *graphql.Schema
+	p   *federation.Planner
+	s   *graphql.Schema
+	err error
 }
 
 func (c *cachedSyncer) FetchPlannerAndSchema(ctx context.Context) (*federation.Planner, *graphql.Schema, error) {
 	if f := c.cache[*c.version]; f != nil {
-		return f.p, f.s, nil
+		return f.p, f.s, f.err
 	}
 	p, s, err := c.inner.FetchPlannerAndSchema(ctx)
-	if err == nil && p != nil {
-		c.cache[*c.version] = &fetched{p, s}
-	}
+	c.cache[*c.version] = &fetched{p, s, err}
 	return p, s, err
 }
 
@@ -366,7 +370,18 @@ func refreshItemOn(c rcfg, q string, want interface{}, dep0, dep1 *fedfix.Deploy
 				var p *federation.Planner
 				var schema *graphql.Schema
 				var err error
+				if c.Down && i == 0 {
+					g.Recorders["s2"].Down = true
+					version = 2
+				}
 				rt.NoBranch(func() { p, schema, err = g.Exec.VerifFetch(ctx) })
+				if c.Down && i == 0 {
+					g.Recorders["s2"].Down = false
+					version = 0
+					if err != nil || p == nil {
+						continue // what poll does: keep the planner it has and try again at the next tick
+					}
+				}
 				if err != nil || p == nil {
 					x.Fail("refresh", "c06/refresh/refresh-failed", "schema refresh failed: %v", err)
 					return
@@ -391,6 +406,11 @@ func refreshItemOn(c rcfg, q string, want interface{}, dep0, dep1 *fedfix.Deploy
 			} else {
 				judge("second", &a2, want)
 			}
+		}
+		if c.Down { // the fault is over: the gateway must still answer like the combined server
+			var a3 answer
+			request(q, &a3)
+			judge("after the fault", &a3, want)
 		}
 		if !c.Change { // with a redeployed s2 a request recorded before the swap is judged against the new schema: skip
 			checkSubQueries(g, func(clause, sig, msg string) { x.Fail(clause, sig, "%s", msg) }, "refresh")
@@ -422,6 +442,7 @@ func refreshConfigs(tier string) []rcfg {
 			}
 		}
 		out = append(out, rcfg{Asg: asg, Query: 0, N: 1, Twice: true, Introsp: true})
+		out = append(out, rcfg{Asg: asg, Query: asg, N: 1, Down: true}, rcfg{Asg: asg, Query: 2 + asg, N: 2, Down: true})
 	}
 	return out
 }
@@ -439,5 +460,5 @@ func init() {
 		Rule: "fields served by several services: every set of three of the 10 extra fields (and, separately, all root fields) served by both s1 and s2, over 2 (thorough 4) base partitions, x every ServiceSelector choice of the resolving service for those fields (the planner's own choice ranges over a Go map) x the query list; oracle as for c06/partitions"})
 	reg.Register(&reg.Harness{Property: "C06", Name: "c06/refresh", Level: "model_checking", Bounds: [2]int{2, 3}, Run: runRefresh,
 		Item: func(n string) *explore.Item { return refreshItem(parseRcfg(n)) },
-		Rule: "one or two gateway requests (multi-hop plans; optionally an introspection query) concurrent with 1-2 schema refreshes (the body of the poll goroutine's ticker branch, through the VerifRefresh hook), optionally finding service s2 redeployed with additional fields; all interleavings within the deviation bound on the real federation.Executor, with the happens-before race monitor on every map access of the instrumented packages; oracle: each request returns the combined server's answer, no request blocks, refresh succeeds, no unordered conflicting map accesses"})
+		Rule: "one or two gateway requests (multi-hop plans; optionally an introspection query) concurrent with 1-2 schema refreshes (the body of the poll goroutine's ticker branch, through the VerifRefresh hook), optionally finding service s2 redeployed with additional fields, or unreachable during the fetch (a transient fault, with a further request once it is back); all interleavings within the deviation bound on the real federation.Executor, with the happens-before race monitor on every map access of the instrumented packages; oracle: each request returns the combined server's answer, no request blocks, refresh succeeds, no unordered conflicting map accesses"})
 }
